@@ -113,4 +113,14 @@ CLAIMED['C14'] = (
     'DESIGN.md 3/C14',
 )
 
+CLAIMED['C15'] = (
+    'ordering/dominance rules on the statement CFG of the iteration-file writer, reader and of estimate (write-temp-then-replace protocol, typestate of the best-so-far marker) (ast + CFG)',
+    'This property is almost entirely structural and is decided nearly in full: the iteration file is never opened for writing, a uniquely named temporary file in the same '
+    'directory is filled, closed and os.replace()d onto it (crash atomicity); every line carries the canonical name and the value without precision loss and the reader mirrors '
+    'the writer; a point is written only with finite derivatives and f >= best-so-far, the marker is raised on every write and reset between the initial evaluation and the '
+    'optimisation; saving is off during bootstrap re-estimations and restored in a finally block; the saved point is loaded into formulas and start vector before optimising. '
+    'Not decided: float round trip of str(numpy.float64) (numpy documentation), file-system semantics of os.replace.',
+    'DESIGN.md 3/C15',
+)
+
 NOT_APPLICABLE = {f'C{i:02d}': WIP for i in range(1, 20)}
